@@ -21,7 +21,7 @@ EXPLANATION = ("Static analysis of the reuse branches of GridOperation.DensityEs
 DE = "GridOperation.DensityEstimation"
 
 
-def run(prog, ctx):
+def check_matrix_cache(prog, ctx, rule):
     bd = prog.func(DE + ".build_R_matrix_dimension_wise")
     ctx.touch(bd)
     tm = Terms(bd.node, max_depth=0)
@@ -31,7 +31,7 @@ def run(prog, ctx):
     # ------------------------------------------------------------------ D1
     cache_stores = [s for s in R.self_stores(bd, "old_R") if s.kind == "elem"]
     cache_reads = [n for n in ast.walk(bd.node) if isinstance(n, ast.Subscript) and isinstance(n.ctx, ast.Load) and R.self_attr(n.value, "self") == "old_R"]
-    ctx.floor("C17.D1", len(cache_stores) + len(cache_reads), 2, "stores into / reads from the matrix-entry cache")
+    ctx.floor(rule, len(cache_stores) + len(cache_reads), 2, "stores into / reads from the matrix-entry cache")
     for k, s in enumerate(cache_stores):
         sn = c.node_of(s.stmt)
         keyt = R.resolve_locals(bd, tm.term(s.stmt.targets[0].slice), sn, tm)
@@ -72,13 +72,26 @@ def run(prog, ctx):
         else:
             if any(x == lam for x in subterms(vt)):
                 problems.append("the cached value contains lambda")
+            # a matrix entry is cached: no statement that adds lambda to that entry may precede the store within the iteration
+            for n in c.nodes:
+                if n.kind == "stmt" and isinstance(n.ast, (ast.AugAssign, ast.Assign)) and loops and c.in_loop(n, loops[-1]) \
+                        and any(R.self_attr(x, "self") == "lambd" for x in ast.walk(n.ast.value)):
+                    tg = n.ast.target if isinstance(n.ast, ast.AugAssign) else n.ast.targets[0]
+                    tt = tm.term(tg)
+                    mirror = ("s", ("s", vt[1][1], vt[2]), vt[1][2]) if vt[0] == "s" and vt[1][0] == "s" else None
+                    if (tt == vt or tt == mirror or (vt[0] == "s" and vt[1][0] == "s" and tt[0] == "s" and tt[1][0] == "s" and tt[1][1] == vt[1][1])) \
+                            and sn.idx in c.reachable_after(n, blocked=[c.node_of(loops[-1])]):
+                        problems.append("`%s` adds lambda to the matrix entry before `%s` caches it (cached diagonal values contain lambda and "
+                                        "receive it again on every hit)" % (src(n.ast), src(s.stmt)))
+            if not (vt[0] == "s"):
+                pass
         # lambda is added to the matrix only after the cache store (never to the cached object)
         for n in c.nodes:
             if n.kind == "stmt" and n.ast is not None and any(R.self_attr(x, "self") == "lambd" for x in ast.walk(n.ast)) and loops and c.in_loop(n, loops[-1]):
                 if isinstance(n.ast, ast.AugAssign) and isinstance(n.ast.target, ast.Name) and isinstance(valn, ast.Name) and n.ast.target.id == valn.id \
                         and sn.idx in c.reachable_after(n, blocked=[c.node_of(loops[-1])]):
                     problems.append("lambda is added to `%s` before it is cached" % valn.id)
-        ctx.check(not problems, "C17.D1", R.key_of(bd, "cache-store#%d" % k), bd.loc(s.stmt),
+        ctx.check(not problems, rule, R.key_of(bd, "cache-store#%d" % k), bd.loc(s.stmt),
                   "the cache stores the lambda-free entry of the pair it is keyed by",
                   "matrix-entry cache: " + "; ".join(problems))
     # a hit is used like a fresh value: the hit assigns the same local that the matrix stores read, under key membership
@@ -106,9 +119,17 @@ def run(prog, ctx):
                 ok = len(fills) >= 2 and all(rn.idx not in c.reachable_after(f, blocked=[c.node_of(loops[-1])]) for f in fills) and \
                     all(f.idx in c.reachable_after(rn, blocked=[c.node_of(loops[-1])]) for f in fills)
                 why = "a cache hit does not flow into the same matrix stores as a fresh value"
-        ctx.check(ok, "C17.D1", R.key_of(bd, "cache-hit#%d" % k), bd.loc(rd),
+        ctx.check(ok, rule, R.key_of(bd, "cache-hit#%d" % k), bd.loc(rd),
                   "a hit is read under the membership test of the same key and fills the same matrix entries as a fresh value",
                   "matrix-entry cache: " + why)
+
+
+
+def run(prog, ctx):
+    check_matrix_cache(prog, ctx, "C17.D1")
+    bd = prog.func(DE + ".build_R_matrix_dimension_wise")
+    tm = Terms(bd.node, max_depth=0)
+    c = cfg_of(bd)
 
     # ------------------------------------------------------------------ D2
     n2 = 0
